@@ -798,6 +798,7 @@ fn cmd_run(args: &Args) -> i32 {
         let iso_path = dirs.root.join("isolated.json");
         let mut tried = 0;
         let mut tried_sequential = 0;
+        let mut tried_marathon = 0;
         for (k, (i, v)) in found.into_iter().enumerate() {
             if seen_oracles.contains(&v.oracle) {
                 continue;
@@ -806,7 +807,22 @@ fn cmd_run(args: &Args) -> i32 {
             // happen to do at the same time, which no scenario can replay; the concurrent stratum
             // reproduces it from its scenario. Give both kinds of candidate their own budget.
             let concurrent = v.message.starts_with("[concurrent loads");
-            if !concurrent {
+            let sc = if k < n_sweep {
+                let idx = i as usize;
+                sweep_scenario(idx, true)
+            } else {
+                scenario::generate(prng::mix(base_seed, i), i, &ctx.infos)
+            };
+            // Likewise state that *accumulates* (a call counter, a table with a capacity) trips in
+            // whichever run happens to cross the threshold on its worker, which does not replay;
+            // the marathon stratum crosses such thresholds within one run. Its own budget too.
+            let marathon = sc.stratum == "marathon";
+            if marathon {
+                tried_marathon += 1;
+                if tried_marathon > 3 {
+                    continue;
+                }
+            } else if !concurrent {
                 tried_sequential += 1;
                 if tried_sequential > 12 {
                     continue;
@@ -816,12 +832,6 @@ fn cmd_run(args: &Args) -> i32 {
             if tried > 48 {
                 break;
             }
-            let sc = if k < n_sweep {
-                let idx = i as usize;
-                sweep_scenario(idx, true)
-            } else {
-                scenario::generate(prng::mix(base_seed, i), i, &ctx.infos)
-            };
             let mk_rf = |s: &Scenario, v: &Violation, execs: usize| {
                 let (s2, pool2) = extract(s, &ctx.images);
                 ReplayFile {
@@ -844,7 +854,9 @@ fn cmd_run(args: &Args) -> i32 {
             let mut result: Option<shrink::Shrunk> = None;
             let again = sim.execute(&sc);
             if matches!(&again.violation, Some(v2) if v2.oracle == v.oracle) {
-                let sh = shrink::shrink(&mut |s| sim.execute(s).violation, &sc, &v, 4000);
+                // (a history of a thousand operations is not minimised at length: what makes it
+                // fail is its length)
+                let sh = shrink::shrink(&mut |s| sim.execute(s).violation, &sc, &v, if marathon { 150 } else { 4000 });
                 if matches!(isolated(&sh.scenario), Some(v3) if v3.oracle == v.oracle) {
                     result = Some(sh);
                 }
@@ -852,7 +864,7 @@ fn cmd_run(args: &Args) -> i32 {
             // Slow path: every candidate executed in a fresh process.
             if result.is_none() {
                 if matches!(isolated(&sc), Some(v3) if v3.oracle == v.oracle) {
-                    result = Some(shrink::shrink(&mut isolated, &sc, &v, 400));
+                    result = Some(shrink::shrink(&mut isolated, &sc, &v, if marathon { 60 } else { 400 }));
                 }
             }
             match result {
